@@ -47,7 +47,7 @@ theorem sDiff1_length (ds : DType) (xs : List Nat) : (sDiff1 ds xs).length = xs.
 
 /-! ### varint and offsets -/
 
-theorem encVarintHigh_length_le (m y : Nat) : (encVarintHigh m y).length ≤ 2 * m := by
+theorem encVarintHigh_length_le_feat (m y : Nat) : (encVarintHigh m y).length ≤ 2 * m := by
   induction m generalizing y with
   | zero => simp [encVarintHigh]
   | succ m ih =>
